@@ -53,6 +53,22 @@ def gen_batch(rng, nmethods=12, chain=False):
     return ctx, fs, methods
 
 
+def wide_batch(rng):
+    """more than twenty bundled members of one direction, equal sizes never adjacent in the
+    declaration: 'largest first, otherwise in declaration order' for long bundles"""
+    ctx = gen.Ctx(rng)
+    cyc = ["uint8", "uint32", "uint16", "uint64", "int8", "float32", "int16", "float64"]
+    methods = []
+    for mi, (d, n) in enumerate((("in", 24), ("out", 22), ("in", 31))):
+        ps = [(d, cyc[(i * 3 + mi) % len(cyc)], None, "p%d" % i) for i in range(n)]
+        ps.append(("out" if d == "in" else "in", "uint32", None, "q"))
+        methods.append(("m%d" % mi, ps))
+    methods.append(("m3", [("in", cyc[i % 8], None, "a%d" % i) for i in range(21)] + [("out", cyc[(i + 2) % 8], None, "b%d" % i) for i in range(21)]))
+    decls = [("iface", "IL2", None, [("method", n, ps, False, None) for n, ps in methods])]
+    fs = {"files": [{"path": "l2.idl", "includes": [], "decls": decls}], "main": "l2.idl", "idirs": []}
+    return ctx, fs, methods
+
+
 def build_and_run(root, tag, ctx, methods, vals, cc="gcc", error_status=0, san=True, only=None):
     src = l2c.generate(ctx, "IL2", methods, vals, error_status, only=only)
     c = os.path.join(root, "l2_%s.c" % tag)
@@ -166,6 +182,7 @@ def run(ctx_):
         return res
     rng = vlib.mkrng(seed, prop)
     batches = [gen_batch(rng, chain=(i % 2 == 1)) for i in range(nb)]
+    batches[-1] = wide_batch(rng)
     lines = []
     for b, (c, fs, methods) in enumerate(batches):
         root = os.path.join(work, "b%d" % b)
